@@ -444,7 +444,7 @@ def run_check(prop, spec, tier, seed):
 
     # ---- replay candidates natively (debug, then release)
     threaded = {sc['name'] for sc in spec['scenarios'] if sc.get('threads')}
-    stress_runs = 60
+    stress_runs = 1600      # native stress replays per schedule-dependent counterexample (16 at a time, at most 60 s)
     if need_replay:
         ensure_built(need_release=True)
     os.makedirs(os.path.join(ROOT, 'evidence', 'replays'), exist_ok=True)
@@ -465,13 +465,24 @@ def run_check(prop, spec, tier, seed):
         nr = native(scn, shp, v, profile='release', timeout=tmo)
         if scn in threaded and not (confirms(nd) or confirms(nr)):
             # schedule-dependent: stress replay with delay injection at the library's sync points
-            for attempt in range(1, stress_runs + 1):
-                nd = native(scn, shp, v, profile='debug', delay_seed=attempt * 7919, timeout=5)
-                if confirms(nd):
-                    break
-                nr = native(scn, shp, v, profile='release', delay_seed=attempt * 104729, timeout=5)
-                if confirms(nr):
-                    break
+            # (random delays there and random start offsets of the racing threads), 16 replays at a time
+            from concurrent.futures import ThreadPoolExecutor
+            t_st = time.time()
+            def one(attempt):
+                prof = 'debug' if attempt % 2 else 'release'
+                return prof, native(scn, shp, v, profile=prof, delay_seed=attempt * 7919, timeout=5)
+            with ThreadPoolExecutor(max_workers=16) as ex:
+                attempt = 1
+                found = False
+                while attempt <= stress_runs and not found and time.time() - t_st < 60:
+                    for prof, n in ex.map(one, range(attempt, attempt + 16)):
+                        if confirms(n):
+                            found = True
+                            if prof == 'debug':
+                                nd = n
+                            else:
+                                nr = n
+                    attempt += 16
         cd, cr = confirms(nd), confirms(nr)
         rec = {'property': prop, 'scenario': scn, 'shape': shp, 'what': what, 'values': vals, 'native_debug': {'code': nd['code'], 'failed': nd.get('failed'), 'panic': nd.get('panic')},
                'native_release': {'code': nr['code'], 'failed': nr.get('failed'), 'panic': nr.get('panic')},
